@@ -29,6 +29,8 @@ static PANICS: AtomicUsize = AtomicUsize::new(0);
 static LAST_PANIC: Mutex<String> = Mutex::new(String::new());
 static INST_COUNTER: AtomicUsize = AtomicUsize::new(0);
 const CALL_TIMEOUT: Duration = Duration::from_secs(5);
+const HANG_TIMEOUT: Duration = Duration::from_secs(60);
+static SLOW: AtomicUsize = AtomicUsize::new(0);
 const WORK: &str = "/verif/work/C14";
 const PROBE_NS: &str = "c14probe { Probe { name: String } }";
 
@@ -51,11 +53,15 @@ impl Inst {
     }
     /// the fixed probe: a query through the database task and a reader thread (+ a write when `full`)
     pub async fn probe(&self, full: bool) -> bool {
-        let r = tokio::time::timeout(CALL_TIMEOUT, self.app.query("query { c14probe.Probe(first 1) { name } }", None)).await;
+        let q = self.app.query("query { c14probe.Probe(first 1) { name } }", None);
+        tokio::pin!(q);
+        let r = match tokio::time::timeout(CALL_TIMEOUT, &mut q).await {
+            Ok(r) => Ok(r),
+            Err(_) => { SLOW.fetch_add(1, Ordering::SeqCst); tokio::time::timeout(HANG_TIMEOUT, &mut q).await }
+        };
         let ok = matches!(r, Ok(Ok(ref s)) if s.contains("probe-row"));
         if !ok || !full { return ok; }
-        let w = tokio::time::timeout(CALL_TIMEOUT, self.app.mutate(r#"mutate { c14probe.Probe { name: "w" } }"#, None)).await;
-        matches!(w, Ok(Ok(_)))
+        call(self.app.mutate(r#"mutate { c14probe.Probe { name: "w" } }"#, None)).await == 0
     }
     pub fn close(self) { let p = self.path.clone(); drop(self); let _ = std::fs::remove_dir_all(p); }
 }
@@ -63,7 +69,12 @@ impl Inst {
 /// outcome code of one API call: 0 Ok, 1 Err, 2 a panic happened during the call, 3 no answer in time
 pub async fn call<T, E>(fut: impl std::future::Future<Output = Result<T, E>>) -> i64 {
     let before = panics();
-    let r = tokio::time::timeout(CALL_TIMEOUT, fut).await;
+    tokio::pin!(fut);
+    // two stages: an answer that is merely slow (machine load, oversized input) is not "no answer"
+    let r = match tokio::time::timeout(CALL_TIMEOUT, &mut fut).await {
+        Ok(r) => Ok(r),
+        Err(_) => { SLOW.fetch_add(1, Ordering::SeqCst); tokio::time::timeout(HANG_TIMEOUT, &mut fut).await }
+    };
     // a reader-thread panic drops the reply channel: give the hook a moment to have run
     if panics() == before && matches!(r, Ok(Err(_))) { tokio::task::yield_now().await; }
     let after = panics();
@@ -504,6 +515,7 @@ async fn main() {
     // ---- streams without a model verdict (b, d ingestion, e)
     observed_streams(&mut rng, &mut out, &mut stats).await;
 
+    stats.insert("answers_slower_than_5s".into(), json!(SLOW.load(Ordering::SeqCst)));
     eprintln!("c14 generator: {}", serde_json::Value::Object(stats.clone()));
     out.push(Case { kind: "stats".into(), coq: "CObs 0%N".into(), obs: vec![0, 1], meta: serde_json::Value::Object(stats) });
     out.finish();
